@@ -943,7 +943,9 @@ class Session:
         self.cur = Interp(script, stack, flags, sv, self.checker, allow_disabled, weight, mock, mock_mode)
         self.done = False
         self.p2sh_copy = None
-        if flags & F["P2SH"] and is_p2sh(self.cur.script):
+        # the pay-to-script-hash pattern matters where a scriptPubKey is: a plain (legacy) script given with its stack.
+        # Not in a scriptSig (a scriptPubKey follows), not in a witness script or tapscript - consensus runs those as they are.
+        if flags & F["P2SH"] and sv == BASE and not self.successor and is_p2sh(self.cur.script):
             self.p2sh_copy = list(self.cur.stack)
         self.phase = 0
         # BIP342: the initial stack of a tapscript execution is limited to 1000 elements before anything runs
